@@ -33,11 +33,16 @@ impl SwiftField for Field75 {
         let mut information = Vec::new();
 
         // Parse up to 6 lines of 35 characters each
-        for line in input.lines() {
-            if information.len() >= 6 {
-                break;
-            }
-
+        let content = super::field_utils::content_lines(input, "Field75")?;
+        if content.len() > 6 {
+            return Err(ParseError::InvalidFormat {
+                message: format!(
+                    "Field75 cannot have more than 6 lines, found {}",
+                    content.len()
+                ),
+            });
+        }
+        for line in content {
             if line.len() > 35 {
                 return Err(ParseError::InvalidFormat {
                     message: format!(
